@@ -69,6 +69,14 @@ impl RandomPolicy {
     }
 }
 
+#[cfg(feature = "verif")]
+impl RandomPolicy {
+    /// verification hook: current value of the accounted memory usage counter
+    pub fn verif_memory_usage(&self) -> u64 {
+        self.memory_usage.load(atomic::Ordering::Acquire)
+    }
+}
+
 impl CacheImplDetails for RandomPolicy {
     //
     fn get_by_key(&self, key: &KeyType) -> Result<Record> {
